@@ -3,7 +3,7 @@
 //@ assume: decided here: Extension::rewind_single_block undoes one block on the extension -- the MMRs are rewound to the PREVIOUS header's output/kernel sizes with exactly the block's spent positions handed over to be unspent; a removal from the output-position index is attempted for EVERY output the block created; and EVERY entry of the block's spent index whose output is (again) present in the output MMR gets its index entry restored to the spent position -- so that after a reorganisation the index names exactly the outputs unspent on the fork being built
 //@ assume: PRECONDITION: positions stored in the spent index are 1-based (>= 1) -- `pos1.pos - 1` would underflow on a stored 0; the index is written by apply_block from MMR positions returned by apply_output (1 + pos0)
 //@ assume: PRECONDITION: a block has fewer than 2^31 outputs (`missing_count` is an i32 counter; the block weight rule bounds outputs to a few thousand)
-//@ assumed_items: 18
+//@ assumed_items: 16
 //@ fns: Extension::rewind_single_block
 #[verifier::external_body]
 #[derive(Clone, Copy)]
@@ -74,15 +74,11 @@ impl KernelIndex {
 pub mod store { use super::*;
     #[verifier::external_body]
     pub fn nrd_recent_kernel_index() -> (r: KernelIndex) { unimplemented!() } }
-#[verifier::external_body]
-pub struct OutPmmr { _p: u8 }
+pub struct OutPmmr { pub size: u64, pub id: Ghost<int> }
 impl OutPmmr {
     pub uninterp spec fn data(&self, pos0: u64) -> Option<OutputIdentifier>;
-    pub uninterp spec fn sp_size(&self) -> u64;
     #[verifier::external_body]
     pub fn get_data(&self, pos0: u64) -> (r: Option<OutputIdentifier>) ensures r == self.data(pos0) { unimplemented!() }
-    #[verifier::external_body]
-    pub fn size(&self) -> (r: u64) ensures r == self.sp_size() { unimplemented!() }
 }
 pub struct Extension { pub output_pmmr: OutPmmr, pub mmr_rewinds: Ghost<Seq<(u64, u64, Seq<u64>)>> }
 impl Extension {
@@ -108,11 +104,10 @@ impl Extension {
 //@   rewrite `let spent_pos: Vec<_> = if let Ok(ref spent) = spent {` => `let spent_pos: Vec<u64> = if let Ok(spent) = &spent {`
 //@   rewrite `spent.iter().map(|x| x.pos).collect()` => `positions_of(spent)`
 //@   rewrite `bitmap.iter().map(|x| x.into()).collect()` => `bitmap_positions(&bitmap)`
-//@   rewrite `affected_pos.push(self.output_pmmr.size);` => `affected_pos.push(self.output_pmmr.size());`
 //@   rewrite `for out in block.outputs() {` => `for out in it: block.outputs().iter() {`
 //@   rewrite `for kernel in block.kernels() {` => `for kernel in it2: block.kernels().iter() {`
 //@   rewrite `for pos1 in spent {` => `for pos1r in it3: spent.iter() { let pos1 = *pos1r;`
-//@   before `let mut affected_pos = spent_pos;`:
+//@   before `let mut missing_count = 0;`:
 //@+    let ghost rew = self.mmr_rewinds@;
 //@+    let ghost pm = self.output_pmmr;
 //@   loop 1:
@@ -145,6 +140,7 @@ impl Extension {
 //@+    r.is_ok() && block.header.height == 0 ==> final(self).mmr_rewinds@.last().0 == 0 && final(self).mmr_rewinds@.last().1 == 0,
 //@+    r.is_ok() ==> (sp_spent_index(block.header.id) matches Some(s) ==> final(self).mmr_rewinds@.last().2 == pos_seq(s)),
 //@+    r.is_ok() ==> final(batch).deleted@ =~= old(batch).deleted@ + block.outs@.map_values(|o: Output| o.commit),
+//@+    r matches Ok(v) ==> (sp_spent_index(block.header.id) matches Some(s) ==> v@ == pos_seq(s).push(final(self).output_pmmr.size)),
 //@+    r.is_ok() ==> (sp_spent_index(block.header.id) matches Some(s) ==> final(batch).saved@ =~= old(batch).saved@ + restored(final(self).output_pmmr, s, s.len() as int)),
 //@+    r.is_ok() ==> (sp_spent_index(block.header.id).is_none() ==> final(batch).saved@ == old(batch).saved@),
 //@ end
